@@ -34,6 +34,19 @@ def gen_cases(tier, seed):
             yield h.case(5000, c.tag + ' / repeated')
 
 
+    # one Filesize object kept by the application and updated between transfers (the compressed size is never given: it defaults to
+    # the uncompressed one each time)
+    from harness.callreg_ext import a_file
+    for moop in (1, 3, 6):
+        for sizes in ([0x1000, 0x2340, 0x10], [5, 0xFFFFFF, 0], [0x100, 0x100, 0xFF]):
+            for comp in (None, 7):
+                h = cl.H(list(cl.DEFAULT_CFG))
+                for u in sizes:
+                    a_, b_ = a_file(moop, b'a.bin', None, (u, comp, 4))
+                    h.call(27, a_, b_, [])
+                yield h.case(5000, 'request_file_transfer with one Filesize object updated between calls / repeated, other values')
+
+
 def worker_init():
     cl.setup()
 
@@ -54,6 +67,16 @@ def oracle(c, r):
         want = val[:1] + bytes([val[1] | 0x80]) + val[2:] if svc.use_subfunction() else val
         if sent[:1] != [want]:
             return ('wrong-encoding-suppressed/%s' % c.tag.split(' / ')[0], 'inside a suppress block sent %r, expected %s' % ([s.hex() for s in sent], want.hex()))
+        return None
+    if c.tag.endswith(' / repeated, other values'):
+        cfgv, ops = cl.case_ops(c)
+        for i, (o, d) in enumerate(zip(ops, cl.parse_calls(r, len(ops))[0])):
+            _, callid, args, cb, reps = o
+            kind, val = isospec.expected(cfgv, callid, args, cb)
+            sent = [e[1] for e in d['events'] if e[0] == 'S']
+            if kind == 'send' and sent[:1] != [val]:
+                return ('wrong-encoding-updated-object/%s' % c.tag.split(' / ')[0], 'call %d (same argument object, updated) sent %r, the ISO encoding is %s' % (
+                    i + 1, [s.hex() for s in sent], val.hex()))
         return None
     if c.tag.endswith(' / repeated'):
         cfgv, ops = cl.case_ops(c)
